@@ -420,8 +420,18 @@ pub fn exec(sc: &Sc) -> Outcome {
 }
 
 pub fn scenarios(tier: Tier) -> Vec<Sc> {
-    let thorough = tier == Tier::Thorough;
-    let codes: Vec<u64> = vec![0, 1, 63, 64, 16383, 16384, (1 << 30) - 1, 1 << 30, rc::VARINT_MAX, 0x170d7b68];
+    let thorough = tier >= Tier::Thorough;
+    let mut codes: Vec<u64> = vec![0, 1, 63, 64, 16383, 16384, (1 << 30) - 1, 1 << 30, rc::VARINT_MAX, 0x170d7b68];
+    if tier >= Tier::Deep {
+        // every power of two and its predecessor in the 62-bit range, the registered HTTP/3 and WebTransport codes
+        for k in 1..62u32 {
+            codes.push(1u64 << k);
+            codes.push((1u64 << k) - 1);
+        }
+        codes.extend([0x100, 0x101, 0x102, 0x10c, 0x10d, 0x110, 0x3994bd84, 0x52e4a40fa8db, 0x52e4a40fa9e2, rc::VARINT_MAX - 1]);
+        codes.sort();
+        codes.dedup();
+    }
     let dirs: Vec<(bool, bool, bool)> = vec![(true, false, false), (false, false, false), (true, true, false), (true, true, true), (false, true, false), (false, true, true)];
     let mut out = vec![];
     for &(co, bi, rev) in &dirs {
